@@ -47,7 +47,7 @@ mod gaps {
     }
 
     pub fn gen_case(r: &mut Rng) -> Case {
-        let kind = r.below(5);
+        let kind = r.below(6);
         Case { kind, a: r.below(64), b: r.below(64), c: r.below(64), d: r.below(8),
                script: (0..r.range(1, 8)).map(|_| (r.below(6), r.range(1, 30))).collect() }
     }
@@ -63,7 +63,8 @@ mod gaps {
             1 => zst_iter(c),
             2 => leak(c),
             3 => full(c),
-            _ => overflow(c),
+            4 => overflow(c),
+            _ => refused(c),
         }
     }
 
@@ -270,6 +271,85 @@ mod gaps {
         for i in 0..cap as u32 { if !ds.contains(&i) { notes.push(format!("{head}: element {i} lost: it was never dropped")); break; } }
         notes
     }
+    // ------------------------------------------------------------------------------------------
+    // every typed try_ entry point and constructor when the base allocator refuses and the current chunk
+    // cannot serve the request: Err, nothing changes, and the same call succeeds once memory is back
+    thread_local! { static GREFUSE: std::cell::Cell<bool> = const { std::cell::Cell::new(false) }; }
+    #[derive(Clone, Default)]
+    pub struct Moody3;
+    unsafe impl bump_scope::alloc::Allocator for Moody3 {
+        fn allocate(&self, layout: std::alloc::Layout) -> Result<std::ptr::NonNull<[u8]>, bump_scope::alloc::AllocError> {
+            if GREFUSE.with(|r| r.get()) { return Err(bump_scope::alloc::AllocError); }
+            Global.allocate(layout)
+        }
+        unsafe fn deallocate(&self, ptr: std::ptr::NonNull<u8>, layout: std::alloc::Layout) { unsafe { Global.deallocate(ptr, layout) } }
+    }
+    use bump_scope::alloc::Allocator as _;
+
+    #[derive(Clone, Copy)] pub struct BigDefault([u64; 100]);
+    impl Default for BigDefault { fn default() -> Self { BigDefault([0; 100]) } }
+
+    fn refused(c: &Case) -> Vec<String> {
+        let mut notes = vec![];
+        let which = c.a % 22;
+        let head = format!("refused: entry={which} up={}", c.d % 2);
+        macro_rules! with {
+            ($up:literal) => {{
+                type B = Bump<Moody3, BumpSettings<1, $up>>;
+                let mut bump: B = Bump::with_size_in(512, Moody3);
+                let sentinel = bump.alloc_slice_fill(6, 0x3Cu8).as_ptr() as usize;
+                let big = 600 + (c.b as usize) * 16;          // more than the 512-byte chunk has left
+                let text = "x".repeat(big);
+                let data = vec![7u32; big / 4];
+                let before = (bump.stats().count(), bump.stats().allocated(), bump.stats().remaining());
+                macro_rules! call {
+                    () => { catch_unwind(AssertUnwindSafe(|| match which {
+                        0 => bump.try_alloc([0u64; 100]).is_err(),
+                        1 => bump.try_alloc_with(|| [0u64; 100]).is_err(),
+                        2 => bump.try_alloc_default::<BigDefault>().is_err(),
+                        3 => bump.try_alloc_slice_copy(&data).is_err(),
+                        4 => bump.try_alloc_slice_clone(&data).is_err(),
+                        5 => bump.try_alloc_slice_fill(big, 1u8).is_err(),
+                        6 => bump.try_alloc_slice_fill_with(big, || 1u8).is_err(),
+                        7 => bump.try_alloc_str(&text).is_err(),
+                        8 => bump.try_alloc_fmt(format_args!("{text}{}", 1)).is_err(),
+                        9 => bump.try_alloc_iter(data.iter().copied()).is_err(),
+                        10 => bump.try_alloc_iter_exact(data.iter().copied()).is_err(),
+                        11 => bump.try_alloc_uninit::<[u64; 100]>().is_err(),
+                        12 => bump.try_alloc_uninit_slice::<u32>(big).is_err(),
+                        13 => bump.try_alloc_cstr_from_str(&text).is_err(),
+                        14 => BumpVec::<u32, &B>::try_with_capacity_in(big, &bump).is_err(),
+                        15 => BumpVec::<u32, &B>::try_from_elem_in(5, big, &bump).is_err(),
+                        16 => BumpVec::<u32, &B>::try_from_iter_in(data.iter().copied(), &bump).is_err(),
+                        17 => FixedBumpVec::<u32>::try_with_capacity_in(big, &bump).is_err(),
+                        18 => bump_scope::BumpString::<&B>::try_with_capacity_in(big, &bump).is_err(),
+                        19 => bump_scope::BumpString::<&B>::try_from_str_in(&text, &bump).is_err(),
+                        20 => bump.try_reserve(big).is_err(),
+                        _ => bump.try_alloc_slice_move(data.clone()).is_err(),
+                    })) };
+                }
+                GREFUSE.with(|r| r.set(true));
+                let r1 = call!();
+                GREFUSE.with(|r| r.set(false));
+                match r1 {
+                    Err(_) => notes.push(format!("{head}: the crate panicked in a try_ entry point when the base allocator refused")),
+                    Ok(false) => notes.push(format!("{head}: a failed reserve: a try_ entry point reported success although the base allocator refused a request that does not fit the chunk")),
+                    Ok(true) => {}
+                }
+                let after = (bump.stats().count(), bump.stats().allocated(), bump.stats().remaining());
+                if after != before { notes.push(format!("{head}: a failed reserve: a refused try_ entry point changed the statistics {before:?} -> {after:?}")); }
+                if unsafe { core::slice::from_raw_parts(sentinel as *const u8, 6) } != [0x3Cu8; 6] { notes.push(format!("{head}: an older allocation changed")); }
+                // memory is back: the same request goes through
+                match call!() {
+                    Ok(false) => {}
+                    other => notes.push(format!("{head}: a failed reserve: the arena does not keep working after a refusal ({other:?})")),
+                }
+            }};
+        }
+        if c.d % 2 == 0 { with!(true) } else { with!(false) }
+        notes
+    }
+
     // ------------------------------------------------------------------------------------------
     fn overflow(c: &Case) -> Vec<String> {
         let mut notes = vec![];
